@@ -1,6 +1,7 @@
 """C20 -- idle and too-slow peers are timed out, live peers are not (io.rs timers, Handshake::ack, connect
 timeout, client keep-alive loop)."""
 import gen_iostate as G
+from props import C19 as HS
 from props.base import Part
 
 RULE = ("(a) engine iostate, timer parts: deterministic scenarios with partial frames, header bytes, injected timer "
@@ -240,10 +241,27 @@ def parts(tier, rng):
     # one process, all scenarios concurrently on one runtime (about 5.5 s of wall clock)
     out.append(RtPart("real-time", "timerrt", rt, shards=1, vm_slice=40,
                       rule="real-time scenarios, 1 s grid, horizon 4..5 s: bare dispatcher and real MQTT endpoints"))
+    # the negotiated keep-alive: what the server enforces is what CONNACK announces (Server Keep Alive), so that a
+    # peer which keeps to the negotiated value is never timed out -- handshake engine, keep-alive overrides
+    for p in HS.parts(tier, rng):
+        if not isinstance(p, HS.HsPart):
+            continue
+        cases = [c for c in p.cases if (c.split(";")[0].split(",") + ["0"] * 16)[9] != "0"
+                 or (c.split(";")[0].split(",") + ["0"] * 16)[14] != "0"]
+        if cases:
+            out.append(KeepAliveAnnounced("keep-alive-at-handshake-" + p.name, "hs", cases, shards=16, rule=p.rule))
     return out
 
 
+class KeepAliveAnnounced(HS.HsPart):
+    def py_oracle(self, case, obs):
+        v = HS.py_oracle(case, obs)
+        return v if v.startswith("0,8") else "1"
+
+
 def replay_parts(rp):
+    if rp.get("engine") == "hs":
+        return [KeepAliveAnnounced("replay", "hs", [rp["case"]], shards=1)]
     eng = rp.get("engine", "timerrt")
     cls = RtPart if eng == "timerrt" else TimerDetPart
     return [cls("replay", eng, [rp["case"]], shards=1)]
@@ -252,6 +270,8 @@ def replay_parts(rp):
 def known_signature(part, case, impl_obs, oracle):
     """recorded deviations of the current tree (see known_findings.json); anything else is None"""
     f = oracle.split(",")
+    if isinstance(part, HS.HsPart):
+        return None
     if len(f) < 3 or f[0] != "0" or part.engine != "timerrt":
         return None
     fields = case.split(";")
@@ -279,6 +299,8 @@ CLAUSES = {
 
 
 def clause_text(part, oracle):
+    if isinstance(part, HS.HsPart):
+        return HS.clause_text(part, oracle)
     f = oracle.split(";")[0].split(",")
     return "%s (second %s)" % (CLAUSES.get(f[1] if len(f) > 1 else "", "property violated"),
                                f[2] if len(f) > 2 else "?")
